@@ -140,10 +140,23 @@ pub fn record_cont(output: &str) {
         let limits = if limited {
             // (J4 / J6 wide enough for the re-distributed split of a previous that does not realise the pose)
             let hw: Joints = std::array::from_fn(|i| if i == 3 || i == 5 { r.gen_range(1.0..1.5) } else { r.gen_range(0.3..1.5) });
-            Some((std::array::from_fn(|i| q[i] - hw[i]), std::array::from_fn(|i| q[i] + hw[i]), [0.0, 0.5, 1.0][k % 3]))
+            // (the ranges of every second robot that is not asked through the sentinel lie off-centre: the posture 0.2 rad
+            //  inside their lower ends, so that the range centres are somewhere else than the previous position)
+            let off = if k % 7 == 5 && (k / 7) % 2 == 1 { 1.0 } else { 0.0 };
+            // (J4 / J6 keep 0.9 rad below the posture - room for a previous split that differs by 0.4 rad - and get 5.3 above (nearly a full turn: the other J4 / J6 splits of the posture are legal as well))
+            let lo = |i: usize| if off == 0.0 { hw[i] } else if i == 3 || i == 5 { 0.9 } else { 0.2 };
+            let hi = |i: usize| if off == 0.0 { hw[i] } else if i == 3 || i == 5 { 5.3 } else { 2.0 * hw[i] - 0.2 };
+            Some((std::array::from_fn(|i| q[i] - lo(i)), std::array::from_fn(|i| q[i] + hi(i)), [0.0, 0.5, 1.0][k % 3]))
         } else if let Some(c) = &shape_case { Some((c.from, c.to, 0.0)) } else { None };
         let sentinel = limited && k % 7 == 3;
-        let robot = Robot::new(p, layers, limits);
+        let mut robot = Robot::new(p, layers, limits);
+        // (the robots with off-centre ranges got their sorting weight assigned after their limits were constructed with
+        //  another one)
+        if let (Some((f, t, w)), true) = (limits, limited && k % 7 == 5 && (k / 7) % 2 == 1) {
+            let mut c = rs_opw_kinematics::constraints::Constraints::new(f, t, if w == 1.0 { 0.0 } else { 1.0 });
+            c.sorting_weight = w;
+            robot.kin = solver::wrap(&robot.layers, std::sync::Arc::new(rs_opw_kinematics::kinematics_impl::OPWKinematics::new_with_constraints(p, c)));
+        }
         let kin: std::sync::Arc<dyn Kinematics> = match shape_case { Some(c) => std::sync::Arc::new(c.kws), None => robot.kin.clone() };
         let want = robot.ofk(&q);
         // previous: realises the pose exactly (half), or differs in the J4/J6 split and sum (half)
@@ -189,7 +202,19 @@ pub fn record_cont(output: &str) {
             taught[5] -= d * s(5);
             let framed = rs_opw_kinematics::frame::Frame { robot: kin.clone(), frame: nalgebra::Isometry3::identity() };
             guarded(|| framed.forward_transformed(&taught, &asked).0)
-        } else { solver::call(kin.as_ref(), "inverse_continuing", &want.to_na(), &asked, 0.0) };
+        } else {
+            // (one call in three comes right after a call for the very same pose from another previous position - the
+            //  same posture with another J4 / J6 split: what a robot answers depends on the previous joints it is given now)
+            let pose = want.to_na();
+            if k % 3 == 1 && !sentinel {
+                let d = r.gen_range(0.2..0.6) * if r.gen_bool(0.5) { 1.0 } else { -1.0 };
+                let mut other = q;
+                other[3] += d * s(3);
+                other[5] -= d * s(5);
+                let _ = solver::call(kin.as_ref(), "inverse_continuing", &pose, &other, 0.0);
+            }
+            solver::call(kin.as_ref(), "inverse_continuing", &pose, &asked, 0.0)
+        };
         if std::env::var("VERIF_DEBUG_EV").ok().and_then(|x| x.parse::<usize>().ok()) == Some(out.n + 1) {
             let bare = rs_opw_kinematics::kinematics_impl::OPWKinematics::new(p);
             let mut leaf_na = want.to_na();
@@ -210,7 +235,7 @@ pub fn record_cont(output: &str) {
         }
         let base = json!({"ev": "cont", "kind": "zero", "realised": realised, "prev": au6(&prev), "sens_nrad": nano(sens), "other_singular": other_singular,
             "s46_equal": p.sign_corrections[3] == p.sign_corrections[5], "offsets": offc, "stack": stack_class, "geom": robots::GEOMETRY_CLASSES[k % robots::GEOMETRY_CLASSES.len()],
-            "sign5": p.sign_corrections[4], "limited": limits.is_some(), "sentinel": sentinel, "via_frame": via_frame, "scale": scale, "layers": format!("{:?}", robot.layers), "params": robots::params_json(&p), "truth": au6(&q)});
+            "sign5": p.sign_corrections[4], "limited": limits.is_some(), "w16": (limits.map(|l| l.2).unwrap_or(0.0) * 16.0).round() as i64, "centred": !(limited && k % 7 == 5 && (k / 7) % 2 == 1), "sentinel": sentinel, "via_frame": via_frame, "scale": scale, "layers": format!("{:?}", robot.layers), "params": robots::params_json(&p), "truth": au6(&q)});
         let mut ev = base;
         match ans {
             None => { ev["outcome"] = json!("panic"); ev["answers"] = json!([]); }
